@@ -10,8 +10,35 @@ from typing import Any, TypeVar
 
 from hypergraph.nodes._rename import RenameEntry, RenameError, get_next_batch_id
 
+class _EmitSentinelType:
+    """Type of the emit sentinel: a singleton that survives pickling and copying.
+
+    Cached outputs of a node with emit names travel through pickle (DiskCache);
+    identity checks against the sentinel must still hold afterwards.
+    """
+
+    _instance: "_EmitSentinelType | None" = None
+
+    def __new__(cls) -> "_EmitSentinelType":
+        if cls._instance is None:
+            cls._instance = super().__new__(cls)
+        return cls._instance
+
+    def __reduce__(self) -> tuple:
+        return (_EmitSentinelType, ())
+
+    def __copy__(self) -> "_EmitSentinelType":
+        return self
+
+    def __deepcopy__(self, memo: dict) -> "_EmitSentinelType":
+        return self
+
+    def __repr__(self) -> str:
+        return "<emit sentinel>"
+
+
 # Sentinel value auto-produced for emit outputs when a node runs.
-_EMIT_SENTINEL = object()
+_EMIT_SENTINEL = _EmitSentinelType()
 
 # TypeVar for self-referential return types (Python 3.10 compatible)
 _T = TypeVar("_T", bound="HyperNode")
